@@ -11,7 +11,8 @@ Inductive policy :=
 | PSameHost
 | PAllowedHost (hs : list bytes)
 | PAllowedDomain (hs : list bytes)
-| PAlwaysCopy                       (* AlwaysCopyHeaderRedirectPolicy: never refuses *)
+| PAlwaysCopy (auth cookie : bool)   (* AlwaysCopyHeaderRedirectPolicy(names): never refuses; the two
+                                       sensitive names the harness uses: Authorization, Cookie *)
 | PNil.                             (* a nil entry in the variadic list: skipped *)
 
 Definition mem_bytes (x : bytes) (l : list bytes) : bool := existsb (bytes_eqb x) l.
@@ -27,7 +28,7 @@ Definition permits (p : policy) (target : bytes) (via : list bytes) : bool :=
   | PSameHost => bytes_eqb (get_hostname target) (get_hostname first)
   | PAllowedHost hs => mem_bytes (get_hostname target) (map (fun h => to_lower (get_hostname h)) hs)
   | PAllowedDomain hs => mem_bytes (get_domain target) (map (fun h => to_lower (get_domain h)) hs)
-  | PAlwaysCopy => true
+  | PAlwaysCopy _ _ => true
   | PNil => true
   end.
 
@@ -37,8 +38,11 @@ Definition PDefault : policy := PMax default_redirect_limit.   (* DefaultRedirec
 Definition all_permit (ps : list policy) (target : bytes) (via : list bytes) : bool :=
   forallb (fun p => permits p target via) ps.
 
-Definition has_always_copy (ps : list policy) : bool :=
-  existsb (fun p => match p with PAlwaysCopy => true | _ => false end) ps.
+(* does some policy re-add Authorization / Cookie from the first request? *)
+Definition copies_auth (ps : list policy) : bool :=
+  existsb (fun p => match p with PAlwaysCopy a _ => a | _ => false end) ps.
+Definition copies_cookie (ps : list policy) : bool :=
+  existsb (fun p => match p with PAlwaysCopy _ c => c | _ => false end) ps.
 
 (* url.URL.Hostname(): strip a valid port, strip brackets; no case folding *)
 Definition url_hostname (host : bytes) : bytes :=
@@ -58,13 +62,19 @@ Definition is_domain_or_subdomain (sub parent : bytes) : bool :=
 Definition should_copy (initial dest : bytes) : bool :=
   is_domain_or_subdomain (url_hostname dest) (url_hostname initial).
 
-Record sent := { s_host : bytes; s_sensitive : bool }.
+(* a request put on the wire: its URL.Host and how many Authorization / Cookie values it
+   carries (the initial request carries one of each) *)
+Record sent := { s_host : bytes; s_auth : nat; s_cookie : nat }.
 
 Inductive chain_end := Completed | Refused.
 
+Definition b2n (b : bool) : nat := if b then 1 else 0.
+
 (* Drive a chain: [init] is the first request's URL.Host (always sent, with the caller's
    sensitive headers), [targets] the Location authorities the servers answer with, in
-   order.  Returns every request put on the wire and how the chain ended. *)
+   order.  Returns every request put on the wire and how the chain ended.  The policies run
+   in order and the first refusal stops them, so an AlwaysCopy placed after a refusing
+   policy never runs - but then nothing is sent either. *)
 Fixpoint follow (ps : list policy) (init : bytes) (via : list bytes) (strip : bool)
          (targets : list bytes) : list sent * chain_end :=
   match targets with
@@ -72,13 +82,14 @@ Fixpoint follow (ps : list policy) (init : bytes) (via : list bytes) (strip : bo
   | t :: rest =>
       let strip' := strip || (negb (bytes_eqb init t) && negb (should_copy init t)) in
       if all_permit ps t via then
-        let sens := negb strip' || has_always_copy ps in
         let '(l, e) := follow ps init (via ++ [t]) strip' rest in
-        ({| s_host := t; s_sensitive := sens |} :: l, e)
+        ({| s_host := t;
+            s_auth := b2n (negb strip' || copies_auth ps);
+            s_cookie := b2n (negb strip' || copies_cookie ps) |} :: l, e)
       else ([], Refused)
   end.
 
 Definition run_chain (ps : list policy) (init : bytes) (targets : list bytes)
   : list sent * chain_end :=
   let '(l, e) := follow ps init [init] false targets in
-  ({| s_host := init; s_sensitive := true |} :: l, e).
+  ({| s_host := init; s_auth := 1; s_cookie := 1 |} :: l, e).
